@@ -125,6 +125,10 @@ fn gen_plan(rng: &mut Rng, lib: &[LibPkg], n_nodes: usize) -> Plan {
     let n_pk = 2 + rng.below(3);
     let mut order: Vec<usize> = (0..lib.len()).collect();
     rng.shuffle(&mut order);
+    // mostly the generated packages (their imports sit on a few semver tracks)
+    if rng.chance(2, 3) {
+        order.sort_by_key(|k| if lib[*k].origin == "wat" { 0 } else { 1 });
+    }
     plan.pkgs = order.into_iter().take(n_pk).collect();
     // scratch graph to learn what is accepted
     let mut g = CompositionGraph::new();
@@ -345,6 +349,22 @@ fn run_plan(out: &mut Out, seed: u64, shard: u64, i: u64, per_lib: u64, cap: usi
         let mut dump = dump_graph(g, &r.pkg_ids);
         push_exports(&mut dump, g);
         let q = query_toks(g);
+        if oi == 0 {
+            // an explicit import on the semver track of a different implicit import name
+            let all: Vec<(String, bool)> = g.imports().map(|(n, _, i)| (n.to_string(), i.is_some())).collect();
+            let track = |n: &str| -> Option<String> {
+                let (base, v) = n.split_once('@')?;
+                let mut it = v.split('.');
+                let (ma, mi) = (it.next()?, it.next()?);
+                Some(if ma != "0" { format!("{}@{}", base, ma) } else { format!("{}@0.{}", base, mi) })
+            };
+            if all.iter().any(|(n, e)| *e && all.iter().any(|(m, e2)| !*e2 && m != n && track(m).is_some() && track(m) == track(n))) {
+                out.count("shape:explicit-import-on-track-of-implicit");
+            }
+            if all.iter().any(|(n, e)| !*e && all.iter().any(|(m, e2)| !*e2 && m != n && track(m).is_some() && track(m) == track(n))) {
+                out.count("shape:two-implicit-versions-on-one-track");
+            }
+        }
         for define in [true, false] {
             let gen = format!("{}.{}.{}.{}.{}", seed, shard, i, oi, define as u8);
             let res = guarded(AssertUnwindSafe(|| {
@@ -368,17 +388,17 @@ fn run_plan(out: &mut Out, seed: u64, shard: u64, i: u64, per_lib: u64, cap: usi
                         EncodeError::GraphContainsCycle { node } => {
                             out.count("result:cycle");
                             rt.s("cycle").n(node_index(node));
-                            iface = Some("cycle".into());
+                            iface = Some("rejected".into());
                         }
                         EncodeError::ImplicitImportConflict { import, instantiation, name, .. } => {
                             out.count("result:implicit-conflict");
                             rt.s("implicit").s(&name).n(node_index(instantiation)).n(node_index(import));
-                            iface = Some("implicit-conflict".into());
+                            iface = Some("rejected".into());
                         }
                         EncodeError::ImportTypeMergeConflict { import, first, second, .. } => {
                             out.count("result:merge-conflict");
                             rt.s("merge").s(&import).n(node_index(first)).n(node_index(second));
-                            iface = Some("merge-conflict".into());
+                            iface = Some("rejected".into());
                         }
                         EncodeError::ValidationFailure { .. } => {
                             out.count("result:validation-failure");
